@@ -81,6 +81,10 @@ func init() {
 				c := ci.(*enum.MergeCase)
 				a.Violation("engine-leak:"+mergeClass(enum.Menu(c.Menu), c.E), c.E.String()+": native engine objects still alive after every segment was closed")
 			}
+			if m := engineMisuse(); m != "" {
+				c := ci.(*enum.MergeCase)
+				a.Violation("engine-misuse:"+mergeClass(enum.Menu(c.Menu), c.E), c.E.String()+": "+m)
+			}
 		},
 	})
 }
